@@ -1,6 +1,6 @@
 (* Proofs about Model/PathTable.v: pycdlib's breadth-first directory numbering, extent assignment
    and path tables, for ARBITRARY directory trees (induction over the queue; no bound on size or
-   depth).
+   depth).  The queue-level lemmas (go_ind etc.) are in Proofs/PathTableLemmas.v.
 
    Main results (all closed under the global context, see the end of the file)
      bfs_numbers                   numbers are 1..n in visiting order, root = 1 with parent 1, the
@@ -18,158 +18,10 @@ From Coq Require Import ZArith List Bool Lia ZifyBool Permutation Sorted.
 From PV.Base Require Import Prim.
 From PV.Gen Require Import GenConst GenFun.
 From PV.Model Require Import Codec PathTable.
-From PV.Proofs Require Import CodecProofs.
+From PV.Proofs Require Import CodecProofs PathTableLemmas.
 Import ListNotations.
 Local Open Scope Z_scope.
 Ltac Zify.zify_post_hook ::= Z.to_euclidean_division_equations.
-
-(* ---- trees and queues ---------------------------------------------------------------------- *)
-
-Lemma dtree_ind' (P : dtree -> Prop) :
-  (forall n b ks, Forall P ks -> P (Node n b ks)) -> forall t, P t.
-Proof.
-  intros H. fix IH 1. intros [n b ks]. apply H.
-  induction ks as [|k ks IHks]; constructor; [apply IH | exact IHks].
-Qed.
-
-Definition itree (it : qitem) : dtree := fst (fst (fst it)).
-Definition ipn (it : qitem) : Z := snd (fst (fst it)).
-Definition ipos (it : qitem) : list nat := snd (fst it).
-Definition ipath (it : qitem) : list (list Z) := snd it.
-
-Lemma tsize_pos t : (1 <= tsize t)%nat.
-Proof. destruct t; cbn; lia. Qed.
-
-Lemma qsize_app a b : qsize (a ++ b) = (qsize a + qsize b)%nat.
-Proof. unfold qsize. rewrite map_app, list_sum_app. reflexivity. Qed.
-
-Lemma qsize_cons' (it : qitem) q : qsize (it :: q) = (tsize (fst (fst (fst it))) + qsize q)%nat.
-Proof. reflexivity. Qed.
-
-Lemma qsize_child i ks pn pos path :
-  qsize (child_items_from i ks pn pos path) = list_sum (map tsize ks).
-Proof.
-  revert i; induction ks as [|k ks IH]; intros i; [reflexivity|].
-  cbn [child_items_from]. rewrite qsize_cons'. rewrite IH. reflexivity.
-Qed.
-
-Lemma qsize_cons nm bl ks pn pos path q :
-  qsize ((Node nm bl ks, pn, pos, path) :: q) = S (list_sum (map tsize ks) + qsize q).
-Proof. reflexivity. Qed.
-
-(* induction over the run of the deque loop *)
-Lemma go_ind (P : list qitem -> Z -> Z -> list dirrec * Z -> Prop) :
-  (forall idx cur, P [] idx cur ([], cur)) ->
-  (forall f nm bl ks pn pos path q idx cur,
-      (qsize (q ++ child_items ks idx pos path) <= f)%nat ->
-      P (q ++ child_items ks idx pos path) (idx + 1) (cur + bl)
-        (go f (q ++ child_items ks idx pos path) (idx + 1) (cur + bl)) ->
-      P ((Node nm bl ks, pn, pos, path) :: q) idx cur
-        (mk_dirrec idx pn nm bl cur pos path
-           :: fst (go f (q ++ child_items ks idx pos path) (idx + 1) (cur + bl)),
-         snd (go f (q ++ child_items ks idx pos path) (idx + 1) (cur + bl)))) ->
-  forall f q idx cur, (qsize q <= f)%nat -> P q idx cur (go f q idx cur).
-Proof.
-  intros Hnil Hstep. induction f as [|f IH]; intros q idx cur Hf.
-  - destruct q as [|[[[t pn] pos] path] q]; [apply Hnil|].
-    exfalso. rewrite qsize_cons' in Hf. cbn [fst] in Hf. pose proof (tsize_pos t). lia.
-  - destruct q as [|[[[[nm bl ks] pn] pos] path] q]; [apply Hnil|].
-    assert (Hq : (qsize (q ++ child_items ks idx pos path) <= f)%nat).
-    { rewrite qsize_app. unfold child_items. rewrite qsize_child. rewrite qsize_cons in Hf. lia. }
-    apply (Hstep f nm bl ks pn pos path q idx cur Hq). apply IH. exact Hq.
-Qed.
-
-Lemma in_child_items i ks pn pos path it :
-  In it (child_items_from i ks pn pos path) ->
-  exists k j, it = (k, pn, pos ++ [j], path ++ [tname k]) /\
-              nth_error ks (j - i) = Some k /\ (i <= j)%nat.
-Proof.
-  revert i; induction ks as [|k ks IH]; intros i H; [destruct H|].
-  destruct H as [<-|H].
-  - exists k, i. rewrite Nat.sub_diag. auto.
-  - apply IH in H. destruct H as (k' & j & -> & Hn & Hle). exists k', j.
-    split; [reflexivity|]. split; [|lia].
-    replace (j - i)%nat with (S (j - S i)) by lia. exact Hn.
-Qed.
-
-(* ---- 1. numbering --------------------------------------------------------------------------- *)
-
-Lemma go_nums f q idx cur : (qsize q <= f)%nat ->
-  forall i r, nth_error (fst (go f q idx cur)) i = Some r -> d_num r = idx + Z.of_nat i.
-Proof.
-  revert f q idx cur.
-  apply (go_ind (fun q idx cur res =>
-           forall i r, nth_error (fst res) i = Some r -> d_num r = idx + Z.of_nat i)).
-  - intros idx cur i r H. destruct i; discriminate.
-  - intros f nm bl ks pn pos path q idx cur Hf IH i r H. cbn [fst] in H. destruct i as [|i].
-    + cbn in H. injection H as <-. cbn. lia.
-    + cbn [nth_error] in H. apply IH in H. lia.
-Qed.
-
-Lemma go_length f q idx cur : (qsize q <= f)%nat -> length (fst (go f q idx cur)) = qsize q.
-Proof.
-  revert f q idx cur. apply (go_ind (fun q idx cur res => length (fst res) = qsize q)).
-  - reflexivity.
-  - intros f nm bl ks pn pos path q idx cur Hf IH. cbn [fst length]. rewrite IH.
-    rewrite qsize_app. unfold child_items. rewrite qsize_child, qsize_cons. lia.
-Qed.
-
-Definition from_item (r : dirrec) (it : qitem) : Prop :=
-  d_parent r = ipn it /\ d_pos r = ipos it /\ d_path r = ipath it /\
-  d_name r = tname (itree it) /\ d_blocks r = tblocks (itree it).
-
-(* the parent directory's record is in the list, carries the recorded parent number, which is
-   smaller than the own number; position and path extend the parent's *)
-Definition has_parent (out : list dirrec) (r : dirrec) : Prop :=
-  exists p j, In p out /\ d_num p = d_parent r /\ d_num p < d_num r /\
-              d_pos r = d_pos p ++ [j] /\ d_path r = d_path p ++ [d_name r].
-
-Lemma has_parent_cons x out r : has_parent out r -> has_parent (x :: out) r.
-Proof. intros (p & j & Hin & H). exists p, j. split; [right; exact Hin|exact H]. Qed.
-
-Lemma go_parent f q idx cur : (qsize q <= f)%nat ->
-  forall r, In r (fst (go f q idx cur)) ->
-    (exists it, In it q /\ from_item r it) \/ has_parent (fst (go f q idx cur)) r.
-Proof.
-  revert f q idx cur.
-  apply (go_ind (fun q idx cur res => forall r, In r (fst res) ->
-           (exists it, In it q /\ from_item r it) \/ has_parent (fst res) r)).
-  - intros idx cur r [].
-  - intros f nm bl ks pn pos path q idx cur Hf IH r H. cbn [fst] in *. destruct H as [<-|H].
-    + left. eexists. split; [left; reflexivity|]. repeat split.
-    + destruct (IH r H) as [(it & Hin & Hfrom)|Hp].
-      * apply in_app_or in Hin. destruct Hin as [Hin|Hin].
-        -- left. exists it. split; [right; exact Hin|exact Hfrom].
-        -- right. apply in_child_items in Hin. destruct Hin as (k & j & -> & _ & _).
-           destruct Hfrom as (Hpn & Hpos & Hpath & Hname & _).
-           unfold ipn, ipos, ipath, itree in *. cbn [fst snd] in *.
-           exists (mk_dirrec idx pn nm bl cur pos path), j. cbn [d_num d_pos d_path].
-           split; [left; reflexivity|]. split; [symmetry; exact Hpn|]. split.
-           { apply In_nth_error in H. destruct H as [i Hi].
-             apply (go_nums f _ _ _ Hf) in Hi. lia. }
-           split; [exact Hpos|]. rewrite Hname. exact Hpath.
-      * right. apply has_parent_cons. exact Hp.
-Qed.
-
-(* a property of queue items inherited by the enqueued children holds of every visited record *)
-Lemma go_items (Q : qitem -> Prop) :
-  (forall nm bl ks pn pos path idx it, Q (Node nm bl ks, pn, pos, path) ->
-      In it (child_items ks idx pos path) -> Q it) ->
-  forall f q idx cur, (qsize q <= f)%nat -> (forall it, In it q -> Q it) ->
-  forall r, In r (fst (go f q idx cur)) ->
-    exists ks, Q (Node (d_name r) (d_blocks r) ks, d_parent r, d_pos r, d_path r).
-Proof.
-  intros Hch.
-  apply (go_ind (fun q idx cur res => (forall it, In it q -> Q it) ->
-           forall r, In r (fst res) ->
-           exists ks, Q (Node (d_name r) (d_blocks r) ks, d_parent r, d_pos r, d_path r))).
-  - intros idx cur _ r [].
-  - intros f nm bl ks pn pos path q idx cur Hf IH HQ r H. cbn [fst] in H. destruct H as [<-|H].
-    + exists ks. cbn. apply HQ. left. reflexivity.
-    + apply IH; [|exact H]. intros it Hin. apply in_app_or in Hin. destruct Hin as [Hin|Hin].
-      * apply HQ. right. exact Hin.
-      * eapply Hch; [|exact Hin]. apply HQ. left. reflexivity.
-Qed.
 
 Lemma bfs_unfold start nm bl ks :
   bfs start (Node nm bl ks) =
@@ -225,14 +77,6 @@ Proof.
   repeat split; try assumption; lia.
 Qed.
 
-Lemma subtree_snoc T pos t' j :
-  subtree T pos = Some t' -> subtree T (pos ++ [j]) = nth_error (tkids t') j.
-Proof.
-  revert T; induction pos as [|i p IH]; intros T H; cbn [subtree app] in *.
-  - injection H as ->. destruct (nth_error (tkids t') j); reflexivity.
-  - destruct (nth_error (tkids T) i); [apply IH; exact H|discriminate].
-Qed.
-
 (* every record is the directory found at its position: identifier and blocks are that
    directory's, the path has one component per level *)
 Theorem bfs_describes_tree start t r : In r (bfs start t) ->
@@ -255,190 +99,12 @@ Proof.
     intros it Hin. exact (Hch _ _ _ _ _ _ _ _ Hroot Hin).
 Qed.
 
-(* ---- the writer's walk --------------------------------------------------------------------- *)
-
-Lemma child_pos_map i ks idx pos path :
-  map (fun it : qitem => (itree it, ipos it)) (child_items_from i ks idx pos path)
-  = child_pos_from i ks pos.
-Proof.
-  revert i; induction ks as [|k ks IH]; intros i; [reflexivity|].
-  cbn [child_items_from child_pos_from map]. rewrite IH. reflexivity.
-Qed.
-
-Lemma wgo_go f : forall q idx cur,
-  wgo f (map (fun it : qitem => (itree it, ipos it)) q) = map d_pos (fst (go f q idx cur)).
-Proof.
-  induction f as [|f IH]; intros q idx cur; [reflexivity|].
-  destruct q as [|[[[[nm bl ks] pn] pos] path] q]; [reflexivity|].
-  cbn [map go fst]. unfold itree at 1, ipos at 1. cbn [fst snd wgo d_pos]. f_equal.
-  rewrite <- (IH _ (idx + 1) (cur + bl)), map_app. unfold child_items.
-  rewrite child_pos_map. reflexivity.
-Qed.
-
 (* the i-th directory whose path table record _write_directory_records emits is the i-th
    directory visited (numbered i) by _reassign_vd_dirrecord_extents *)
 Theorem write_order_is_bfs start t : write_order t = map d_pos (bfs start t).
 Proof.
   destruct t as [nm bl ks]. unfold write_order. rewrite bfs_unfold. cbn [tsize wgo app map d_pos].
   f_equal. rewrite <- wgo_go. unfold child_items. rewrite child_pos_map, qsize_child. reflexivity.
-Qed.
-
-(* ---- 2. order of the written table ------------------------------------------------------------ *)
-
-(* strict (level, parent number, identifier) order; identifiers compared like Python bytes *)
-Definition key_lt (a b : key) : Prop :=
-  (fst (fst a) < fst (fst b))%nat \/
-  (fst (fst a) = fst (fst b) /\
-   (snd (fst a) < snd (fst b) \/ (snd (fst a) = snd (fst b) /\ name_ltb (snd a) (snd b) = true))).
-
-Lemma key_ltb_spec a b : key_ltb name_ltb a b = true <-> key_lt a b.
-Proof.
-  destruct a as [[l1 p1] n1], b as [[l2 p2] n2]. unfold key_ltb, key_lt. cbn [fst snd].
-  destruct (name_ltb n1 n2); lia.
-Qed.
-
-Lemma name_ltb_trans a : forall b c,
-  name_ltb a b = true -> name_ltb b c = true -> name_ltb a c = true.
-Proof.
-  induction a as [|x a IH]; intros [|y b] [|z c]; cbn [name_ltb]; try congruence.
-  destruct (x <? y) eqn:E1; destruct (y <? x) eqn:E2; destruct (y <? z) eqn:E3;
-  destruct (z <? y) eqn:E4; destruct (x <? z) eqn:E5; destruct (z <? x) eqn:E6;
-  intros H1 H2; try congruence; try lia; eauto.
-Qed.
-
-Lemma names_sorted_strong l :
-  names_sortedb l = true -> StronglySorted (fun a b => name_ltb a b = true) l.
-Proof.
-  induction l as [|a r IH]; intros H; [constructor|]. cbn [names_sortedb] in H.
-  apply andb_prop in H. destruct H as [H1 H2]. specialize (IH H2). constructor; [exact IH|].
-  destruct r as [|b r']; [constructor|]. constructor; [exact H1|].
-  apply StronglySorted_inv in IH. destruct IH as [_ Hb]. eapply Forall_impl; [|exact Hb].
-  intros c Hc. eapply name_ltb_trans; eassumption.
-Qed.
-
-Definition ikey (it : qitem) : key := (length (ipos it), ipn it, tname (itree it)).
-Definition ilt (a b : qitem) : Prop := key_lt (ikey a) (ikey b).
-Definition rlt (a b : dirrec) : Prop := key_lt (rkey a) (rkey b).
-
-Lemma child_items_sorted i ks idx pos path :
-  StronglySorted (fun a b => name_ltb a b = true) (map tname ks) ->
-  StronglySorted ilt (child_items_from i ks idx pos path).
-Proof.
-  revert i; induction ks as [|k ks IH]; intros i H; [constructor|]. cbn [map] in H.
-  apply StronglySorted_inv in H. destruct H as [Hs Hf]. cbn [child_items_from].
-  constructor; [apply IH; exact Hs|]. apply Forall_forall. intros it Hin.
-  apply in_child_items in Hin. destruct Hin as (k' & j & -> & Hn & _).
-  apply nth_error_In in Hn. rewrite Forall_forall in Hf.
-  specialize (Hf (tname k') (in_map tname _ _ Hn)).
-  unfold ilt, ikey, key_lt, ipos, ipn, itree; cbn [fst snd]. rewrite !app_length. cbn [length].
-  right. split; [reflexivity|]. right. split; [reflexivity|exact Hf].
-Qed.
-
-Lemma key_lt_level_succ k0 l p n :
-  key_lt k0 (l, p, n) -> forall p' n', key_lt k0 (S l, p', n').
-Proof. unfold key_lt. cbn [fst snd]. intros H p' n'. left. lia. Qed.
-
-Lemma go_lower f q idx cur : (qsize q <= f)%nat ->
-  forall k0, (forall it, In it q -> key_lt k0 (ikey it)) ->
-  forall r, In r (fst (go f q idx cur)) -> key_lt k0 (rkey r).
-Proof.
-  revert f q idx cur.
-  apply (go_ind (fun q idx cur res => forall k0, (forall it, In it q -> key_lt k0 (ikey it)) ->
-           forall r, In r (fst res) -> key_lt k0 (rkey r))).
-  - intros idx cur k0 _ r [].
-  - intros f nm bl ks pn pos path q idx cur Hf IH k0 Hk r H. cbn [fst] in H.
-    destruct H as [<-|H].
-    + exact (Hk _ (or_introl eq_refl)).
-    + apply (IH k0); [|exact H]. intros it Hin. apply in_app_or in Hin.
-      destruct Hin as [Hin|Hin]; [apply Hk; right; exact Hin|].
-      apply in_child_items in Hin. destruct Hin as (k & j & -> & _ & _).
-      unfold ikey, ipos, ipn, itree; cbn [fst snd]. rewrite app_length, Nat.add_1_r.
-      apply (key_lt_level_succ k0 (length pos) pn nm). exact (Hk _ (or_introl eq_refl)).
-Qed.
-
-(* invariant of the deque: sorted by key, parent numbers already issued, at most two levels *)
-Definition qinv (q : list qitem) (idx : Z) : Prop :=
-  StronglySorted ilt q /\ Forall (fun it => ipn it < idx) q /\
-  (forall h q', q = h :: q' ->
-     Forall (fun it => (length (ipos it) <= S (length (ipos h)))%nat) q') /\
-  Forall (fun it => sorted_tree (itree it) = true) q.
-
-Lemma StronglySorted_app {A} (R : A -> A -> Prop) a b :
-  StronglySorted R a -> StronglySorted R b -> (forall x y, In x a -> In y b -> R x y) ->
-  StronglySorted R (a ++ b).
-Proof.
-  induction a as [|x a IH]; intros Ha Hb H; [exact Hb|]. cbn [app].
-  apply StronglySorted_inv in Ha. destruct Ha as [Ha Hf]. constructor.
-  - apply IH; auto. intros; apply H; [right|]; assumption.
-  - apply Forall_app. split; [exact Hf|]. apply Forall_forall. intros y Hy.
-    apply H; [left; reflexivity|exact Hy].
-Qed.
-
-Lemma qinv_step nm bl ks pn pos path q idx :
-  qinv ((Node nm bl ks, pn, pos, path) :: q) idx ->
-  qinv (q ++ child_items ks idx pos path) (idx + 1).
-Proof.
-  intros (Hs & Hp & Hl & Ht). apply StronglySorted_inv in Hs. destruct Hs as [Hs Hh].
-  apply Forall_cons_iff in Hp. destruct Hp as [_ Hp].
-  apply Forall_cons_iff in Ht. destruct Ht as [Ht0 Ht]. specialize (Hl _ _ eq_refl).
-  unfold itree in Ht0; cbn [fst sorted_tree] in Ht0. apply andb_prop in Ht0.
-  destruct Ht0 as [Hn Hk]. rewrite Forall_forall in Hh, Hp, Hl.
-  change (ipos (Node nm bl ks, pn, pos, path)) with pos in Hl.
-  assert (Hc : forall it, In it (child_items ks idx pos path) ->
-            length (ipos it) = S (length pos) /\ ipn it = idx /\ sorted_tree (itree it) = true).
-  { intros it Hin. apply in_child_items in Hin. destruct Hin as (k & j & -> & Hnth & _).
-    unfold ipos, ipn, itree; cbn [fst snd]. rewrite app_length, Nat.add_1_r.
-    repeat split. apply nth_error_In in Hnth. rewrite forallb_forall in Hk. apply Hk, Hnth. }
-  assert (Hlev : forall h', In h' q -> (length pos <= length (ipos h'))%nat).
-  { intros h' Hin. specialize (Hh h' Hin). unfold ilt, ikey, key_lt, ipos in *.
-    cbn [fst snd] in Hh. lia. }
-  split; [|split; [|split]].
-  - apply StronglySorted_app;
-      [exact Hs|apply child_items_sorted, names_sorted_strong, Hn|].
-    intros x y Hx Hy. destruct (Hc y Hy) as (Ly & Py & _). specialize (Hl x Hx).
-    specialize (Hp x Hx). unfold ilt, ikey, key_lt. cbn [fst snd]. rewrite Ly, Py.
-    destruct (Nat.eq_dec (length (ipos x)) (S (length pos))) as [E|E];
-      [right; split; [exact E|left; exact Hp]|left; lia].
-  - apply Forall_app; split; apply Forall_forall; intros x Hx.
-    + specialize (Hp x Hx). cbn beta. lia.
-    + destruct (Hc x Hx) as (_ & E & _). cbn beta. lia.
-  - intros h q' E. destruct q as [|h' q'']; cbn [app] in E.
-    + apply Forall_forall. intros x Hx.
-      assert (H1 : In h (child_items ks idx pos path)) by (rewrite E; left; reflexivity).
-      assert (H2 : In x (child_items ks idx pos path)) by (rewrite E; right; exact Hx).
-      destruct (Hc h H1) as (E1 & _), (Hc x H2) as (E2 & _). lia.
-    + injection E as <- <-. pose proof (Hlev h' (or_introl eq_refl)) as Hh'.
-      apply Forall_app; split; apply Forall_forall; intros x Hx.
-      * specialize (Hl x (or_intror Hx)). lia.
-      * destruct (Hc x Hx) as (E2 & _). lia.
-  - apply Forall_app; split; [exact Ht|]. apply Forall_forall; intros x Hx. apply (Hc x Hx).
-Qed.
-
-Lemma go_sorted f q idx cur : (qsize q <= f)%nat -> qinv q idx ->
-  StronglySorted rlt (fst (go f q idx cur)).
-Proof.
-  revert f q idx cur.
-  apply (go_ind (fun q idx cur res => qinv q idx -> StronglySorted rlt (fst res))).
-  - intros; constructor.
-  - intros f nm bl ks pn pos path q idx cur Hf IH Hq. cbn [fst]. constructor.
-    + apply IH. apply qinv_step with (1 := Hq).
-    + apply Forall_forall. intros r Hr. unfold rlt.
-      refine (go_lower f _ _ _ Hf (rkey (mk_dirrec idx pn nm bl cur pos path)) _ r Hr).
-      intros it Hin. destruct Hq as (Hs & _). apply StronglySorted_inv in Hs.
-      destruct Hs as [_ Hh]. rewrite Forall_forall in Hh. apply in_app_or in Hin.
-      destruct Hin as [Hin|Hin]; [exact (Hh it Hin)|].
-      apply in_child_items in Hin. destruct Hin as (k & j & -> & _ & _).
-      unfold key_lt, rkey, ikey, ipos; cbn [fst snd d_pos]. rewrite app_length. left. cbn. lia.
-Qed.
-
-Lemma SS_nth {A} (R : A -> A -> Prop) l : StronglySorted R l ->
-  forall i j a b, (i < j)%nat -> nth_error l i = Some a -> nth_error l j = Some b -> R a b.
-Proof.
-  induction 1 as [|x l Hs IH Hf]; intros i j a b Hij Ha Hb; [destruct i; discriminate|].
-  destruct j as [|j]; [lia|]. cbn [nth_error] in Hb. destruct i as [|i].
-  - cbn in Ha. injection Ha as <-. rewrite Forall_forall in Hf. apply Hf.
-    eapply nth_error_In. exact Hb.
-  - cbn [nth_error] in Ha. apply (IH i j); [lia|assumption|assumption].
 Qed.
 
 Lemma bfs_sorted start t : sorted_tree t = true -> StronglySorted rlt (bfs start t).
@@ -533,105 +199,11 @@ Proof.
   destruct H as [H|(_ & [H|(_ & H)])]; [lia|lia|apply H; reflexivity].
 Qed.
 
-(* ---- 3./4. sums over the directories, extents ----------------------------------------------- *)
-
-Fixpoint tree_sum (g : list Z -> Z -> Z) (t : dtree) : Z :=
-  match t with Node n b ks => g n b + sumZ (map (tree_sum g) ks) end.
-
-Lemma tree_blocks_sum t : tree_blocks t = tree_sum (fun _ b => b) t.
-Proof.
-  induction t as [n b ks IH] using dtree_ind'. cbn [tree_blocks tree_sum]. f_equal. f_equal.
-  apply map_ext_Forall. exact IH.
-Qed.
-Lemma tree_ptr_size_sum t : tree_ptr_size t = tree_sum (fun n _ => ptr_record_length (zlen n)) t.
-Proof.
-  induction t as [n b ks IH] using dtree_ind'. cbn [tree_ptr_size tree_sum]. f_equal. f_equal.
-  apply map_ext_Forall. exact IH.
-Qed.
-
-Lemma sumZ_app a b : sumZ (a ++ b) = sumZ a + sumZ b.
-Proof. unfold sumZ. induction a as [|x a IH]; cbn [app fold_right] in *; lia. Qed.
-
-Lemma sumZ_cons x a : sumZ (x :: a) = x + sumZ a.
-Proof. reflexivity. Qed.
-
-Definition qsum (g : list Z -> Z -> Z) (q : list qitem) : Z :=
-  sumZ (map (fun it => tree_sum g (itree it)) q).
-
-Lemma qsum_child g i ks idx pos path :
-  qsum g (child_items_from i ks idx pos path) = sumZ (map (tree_sum g) ks).
-Proof.
-  revert i; induction ks as [|k ks IH]; intros i; [reflexivity|].
-  unfold qsum in *. cbn [child_items_from map]. rewrite !sumZ_cons, <- (IH (S i)). reflexivity.
-Qed.
-
-Lemma go_sum g f q idx cur : (qsize q <= f)%nat ->
-  sumZ (map (fun r => g (d_name r) (d_blocks r)) (fst (go f q idx cur))) = qsum g q.
-Proof.
-  revert f q idx cur.
-  apply (go_ind (fun q idx cur res =>
-           sumZ (map (fun r => g (d_name r) (d_blocks r)) (fst res)) = qsum g q)).
-  - reflexivity.
-  - intros f nm bl ks pn pos path q idx cur Hf IH. cbn [fst map] in *.
-    rewrite sumZ_cons, IH. unfold qsum. rewrite map_app, sumZ_app.
-    fold (qsum g (child_items ks idx pos path)).
-    unfold child_items. rewrite qsum_child. cbn [map d_name d_blocks]. rewrite sumZ_cons.
-    unfold itree at 2. cbn [fst tree_sum]. lia.
-Qed.
-
 Lemma bfs_sum g start t :
   sumZ (map (fun r => g (d_name r) (d_blocks r)) (bfs start t)) = tree_sum g t.
 Proof.
   destruct t as [nm bl ks]. rewrite bfs_unfold. cbn [map d_name d_blocks tree_sum].
   rewrite sumZ_cons. f_equal. rewrite go_sum by lia. apply qsum_child.
-Qed.
-
-(* consecutive extents: each directory starts where the previous one ends *)
-Fixpoint chain (e : Z) (rs : list dirrec) : Prop :=
-  match rs with [] => True | r :: rs' => d_extent r = e /\ chain (e + d_blocks r) rs' end.
-
-Lemma go_chain f q idx cur : (qsize q <= f)%nat ->
-  chain cur (fst (go f q idx cur)) /\
-  snd (go f q idx cur) = cur + sumZ (map d_blocks (fst (go f q idx cur))).
-Proof.
-  revert f q idx cur.
-  apply (go_ind (fun q idx cur res =>
-           chain cur (fst res) /\ snd res = cur + sumZ (map d_blocks (fst res)))).
-  - intros idx cur. cbn. split; [exact I|lia].
-  - intros f nm bl ks pn pos path q idx cur Hf [IH1 IH2].
-    cbn [fst snd chain map d_extent d_blocks]. split; [split; [reflexivity|exact IH1]|].
-    rewrite IH2, sumZ_cons. lia.
-Qed.
-
-Lemma chain_next e rs : chain e rs -> forall i a b,
-  nth_error rs i = Some a -> nth_error rs (S i) = Some b -> d_extent b = d_extent a + d_blocks a.
-Proof.
-  revert e; induction rs as [|r rs IH]; intros e H i a b Ha Hb; [destruct i; discriminate|].
-  destruct H as [He H]. destruct i as [|i].
-  - cbn in Ha. injection Ha as <-. destruct rs as [|r' rs']; [discriminate|].
-    cbn in Hb. injection Hb as <-. destruct H as [H _]. lia.
-  - exact (IH _ H i a b Ha Hb).
-Qed.
-
-Lemma chain_lower e rs : Forall (fun r => 0 <= d_blocks r) rs -> chain e rs ->
-  forall r, In r rs -> e <= d_extent r.
-Proof.
-  revert e; induction rs as [|x rs IH]; intros e Hf H r Hin; [destruct Hin|].
-  apply Forall_cons_iff in Hf. destruct Hf as [Hx Hf]. destruct H as [He H].
-  destruct Hin as [<-|Hin]; [lia|]. specialize (IH _ Hf H r Hin). lia.
-Qed.
-
-Lemma chain_disjoint e rs : Forall (fun r => 0 <= d_blocks r) rs -> chain e rs ->
-  forall i j a b, (i < j)%nat -> nth_error rs i = Some a -> nth_error rs j = Some b ->
-  d_extent a + d_blocks a <= d_extent b.
-Proof.
-  revert e; induction rs as [|x rs IH]; intros e Hf H i j a b Hij Ha Hb;
-    [destruct i; discriminate|].
-  apply Forall_cons_iff in Hf. destruct Hf as [Hx Hf]. destruct H as [He H].
-  destruct j as [|j]; [lia|]. cbn [nth_error] in Hb. destruct i as [|i].
-  - cbn in Ha. injection Ha as <-. apply nth_error_In in Hb.
-    pose proof (chain_lower _ _ Hf H b Hb). lia.
-  - cbn [nth_error] in Ha. apply (IH _ Hf H i j); [lia|assumption|assumption].
 Qed.
 
 Fixpoint blocks_okb (t : dtree) : bool :=
@@ -775,30 +347,6 @@ Proof.
   exists p. split; [exact Hnth|]. split; [lia|exact Hpath].
 Qed.
 
-Definition qpaths (q : list qitem) : list (list (list Z)) :=
-  concat (map (fun it => tree_paths (ipath it) (itree it)) q).
-
-Lemma qpaths_child i ks idx pos path :
-  qpaths (child_items_from i ks idx pos path)
-  = concat (map (fun k => tree_paths (path ++ [tname k]) k) ks).
-Proof.
-  revert i; induction ks as [|k ks IH]; intros i; [reflexivity|].
-  unfold qpaths in *. cbn [child_items_from map concat]. rewrite IH. reflexivity.
-Qed.
-
-Lemma go_paths f q idx cur : (qsize q <= f)%nat ->
-  Permutation (map d_path (fst (go f q idx cur))) (qpaths q).
-Proof.
-  revert f q idx cur.
-  apply (go_ind (fun q idx cur res => Permutation (map d_path (fst res)) (qpaths q))).
-  - intros. constructor.
-  - intros f nm bl ks pn pos path q idx cur Hf IH. cbn [fst map d_path].
-    unfold qpaths at 1. cbn [map concat]. unfold ipath at 1, itree at 1. cbn [fst snd tree_paths].
-    cbn [app]. apply perm_skip. eapply Permutation_trans; [exact IH|].
-    unfold qpaths. rewrite map_app, concat_app. fold (qpaths (child_items ks idx pos path)).
-    unfold child_items. rewrite qpaths_child. apply Permutation_app_comm.
-Qed.
-
 (* THEOREM 5 *)
 Theorem reader_sound start t :
   reader_tree_of_ptable (ptable start t) = Some (map d_path (bfs start t)) /\
@@ -854,3 +402,97 @@ Proof.
   intros H. destruct (parse_ptable_sound _ _ _ H) as (rs & Hp & Ht).
   unfold reader_of_bytes. rewrite Hp, Ht. apply reader_sound.
 Qed.
+
+
+(* the extent bookkeeping of add_to_ptr_size / remove_from_ptr_size *)
+Lemma track_add_extents st l : 0 <= ptr_record_length l <= 4096 ->
+  ceiling_div (fst st) 4096 * 2 <= snd st ->
+  ceiling_div (fst (track_add st l)) 4096 * 2 <= snd (track_add st l).
+Proof.
+  unfold track_add, add_to_ptr_size, ceiling_div. intros Hl H.
+  destruct (Z.gtb _ _) eqn:E; cbn [fst snd]; lia.
+Qed.
+
+Lemma track_remove_add st l : ceiling_div (fst st) 4096 * 2 <= snd st ->
+  exists e, track_remove (track_add st l) l = Some (fst st, e).
+Proof.
+  intros H. pose proof (track_add_fst st l) as Hs.
+  assert (He : snd st <= snd (track_add st l))
+    by (unfold track_add, add_to_ptr_size; destruct (Z.gtb _ _); cbn [snd]; lia).
+  destruct (track_add st l) as [s e]. cbn [fst snd] in *.
+  unfold track_remove, remove_from_ptr_size. cbn [fst snd].
+  replace (s - ptr_record_length l) with (fst st) by lia.
+  destruct (Z.gtb (ceiling_div (fst st) 4096 * 2) e) eqn:E2; [lia|].
+  destruct (Z.ltb _ _); eexists; reflexivity.
+Qed.
+
+(* ---- non-vacuity: images built by the real library --------------------------------------------
+   PyCdlib().new(); add_directory(...); force_consistency(); write_fp; the tree literal is read off
+   iso.pvd.root_directory_record() (blocks = ceiling_div(data_length, 2048)), [start] is the root's
+   extent_location(), the expected tuples are parsed from the written L table (and equal
+   (ptr.len_di, ptr.extent_location, ptr.parent_directory_num, ptr.directory_identifier) of the
+   objects). *)
+
+(* /A /AA /B /A/AA /A/B /AA/A /B/A /A/B/C : three levels, siblings A < AA < B under different parents *)
+Definition ex0_tree : dtree :=
+  Node [0] 1 [Node [65] 1 [Node [65; 65] 1 []; Node [66] 1 [Node [67] 1 []]];
+              Node [65; 65] 1 [Node [65] 1 []]; Node [66] 1 [Node [65] 1 []]].
+Definition ex0_expected : list ptuple :=
+  [(1, 23, 1, [0]); (1, 24, 1, [65]); (2, 25, 1, [65; 65]); (1, 26, 1, [66]); (2, 27, 2, [65; 65]);
+   (1, 28, 2, [66]); (1, 29, 3, [65]); (1, 30, 4, [65]); (1, 31, 6, [67])].
+Definition ex0_le : list Z :=
+  [1; 0; 23; 0; 0; 0; 1; 0; 0; 0; 1; 0; 24; 0; 0; 0; 1; 0; 65; 0; 2; 0; 25; 0; 0; 0; 1; 0; 65; 65;
+   1; 0; 26; 0; 0; 0; 1; 0; 66; 0; 2; 0; 27; 0; 0; 0; 2; 0; 65; 65; 1; 0; 28; 0; 0; 0; 2; 0; 66; 0;
+   1; 0; 29; 0; 0; 0; 3; 0; 65; 0; 1; 0; 30; 0; 0; 0; 4; 0; 65; 0; 1; 0; 31; 0; 0; 0; 6; 0; 67; 0].
+Definition ex0_be : list Z :=
+  [1; 0; 0; 0; 0; 23; 0; 1; 0; 0; 1; 0; 0; 0; 0; 24; 0; 1; 65; 0; 2; 0; 0; 0; 0; 25; 0; 1; 65; 65;
+   1; 0; 0; 0; 0; 26; 0; 1; 66; 0; 2; 0; 0; 0; 0; 27; 0; 2; 65; 65; 1; 0; 0; 0; 0; 28; 0; 2; 66; 0;
+   1; 0; 0; 0; 0; 29; 0; 3; 65; 0; 1; 0; 0; 0; 0; 30; 0; 4; 65; 0; 1; 0; 0; 0; 0; 31; 0; 6; 67; 0].
+
+Example ex0_matches_pycdlib :
+  check_ptable_case ex0_tree 23 ex0_expected = true /\
+  check_ptable_bytes_case ex0_tree 23 ex0_le ex0_be = true /\
+  ptable_size ex0_tree = 90 /\ assign_end 23 ex0_tree = 32 /\
+  reader_of_bytes ex0_le =
+    Some [[]; [[65]]; [[65; 65]]; [[66]]; [[65]; [65; 65]]; [[65]; [66]]; [[65; 65]; [65]];
+          [[66]; [65]]; [[65]; [66]; [67]]].
+Proof. vm_compute. repeat split. Qed.
+
+(* interchange_level=4: /A /A\x01 /A\x01/X /A/Y -- the witness of ptable_order_ecma_refuted *)
+Example ex1_matches_pycdlib :
+  check_ptable_case ecma_witness 24
+    [(1, 24, 1, [0]); (1, 25, 1, [65]); (2, 26, 1, [65; 1]); (1, 27, 2, [89]); (1, 28, 3, [88])]
+  = true /\
+  keys_sortedb (key_ltb name_ltb) (map rkey (bfs 24 ecma_witness)) = true /\
+  keys_sortedb (key_ltb ecma_ltb) (map rkey (bfs 24 ecma_witness)) = false.
+Proof. vm_compute. repeat split. Qed.
+
+(* /B /B/Q /B/Q/LONGNAME /X /X/A /X/Y /X/Y/Z /X/Y/Z/W /X/Y/Z/W/V plus files /F.;1 /X/G.;1 : six
+   levels; the files do not take part in the numbering *)
+Definition ex2_tree : dtree :=
+  Node [0] 1 [Node [66] 1 [Node [81] 1 [Node [76; 79; 78; 71; 78; 65; 77; 69] 1 []]];
+              Node [88] 1 [Node [65] 1 [];
+                           Node [89] 1 [Node [90] 1 [Node [87] 1 [Node [86] 1 []]]]]].
+Example ex2_matches_pycdlib :
+  check_ptable_case ex2_tree 23
+    [(1, 23, 1, [0]); (1, 24, 1, [66]); (1, 25, 1, [88]); (1, 26, 2, [81]); (1, 27, 3, [65]);
+     (1, 28, 3, [89]); (8, 29, 4, [76; 79; 78; 71; 78; 65; 77; 69]); (1, 30, 6, [90]);
+     (1, 31, 8, [87]); (1, 32, 9, [86])] = true /\
+  ptable_size ex2_tree = 106 /\ write_order ex2_tree = map d_pos (bfs 23 ex2_tree) /\
+  fst (fold_left track_add [1; 1; 1; 1; 1; 8; 1; 1; 1] track_init) = 106.
+Proof. vm_compute. repeat split. Qed.
+
+Print Assumptions bfs_numbers.
+Print Assumptions bfs_describes_tree.
+Print Assumptions write_order_is_bfs.
+Print Assumptions ptable_order.
+Print Assumptions ptable_order_ecma.
+Print Assumptions ptable_order_ecma_refuted.
+Print Assumptions extents_disjoint_consecutive.
+Print Assumptions ptable_size_sum.
+Print Assumptions ptable_bytes_length.
+Print Assumptions tracked_size_is_ptable_size.
+Print Assumptions reader_sound.
+Print Assumptions parse_ptable_sound.
+Print Assumptions reader_of_bytes_sound.
+Print Assumptions track_remove_add.
